@@ -4,7 +4,7 @@ From Coq Require Export String.
 From Coq Require Export Uint63.
 From Coq Require Import Ascii.
 From AGH Require Import Base.Run.
-From AGH Require Export Model.Migrate Model.MigrateLoad Model.MigrateKinds Model.MigrateFootprint.
+From AGH Require Export Model.Migrate Model.MigrateLoad Model.MigrateKinds Model.MigrateFootprint Model.MigrateFile.
 (* not Local: the shard files contain string literals *)
 Open Scope string_scope.
 
@@ -128,7 +128,14 @@ Inductive case :=
   (* a document the generator of the loader harness calls valid under schema
      version [ver] (decoded body), and whether the loader and the start-up
      stages accepted its upgrade *)
-  | CLoadDoc (ver : Z) (m : obj) (accepted : bool).
+  | CLoadDoc (ver : Z) (m : obj) (accepted : bool)
+  (* home.parseConfig on a real file (round 5).  [f]: the file before the
+     call; [wr]: the fault injected lets an attempted write-back succeed;
+     [acc]: the loader's verdict on the body it is given (oracle, obtained by
+     running the loader alone).  Observed: [cls] 0 error / 1 nil / 2 panic;
+     [chg]: the bytes on disk differ from before, [out] then being the decoded
+     file; [ldeq]: what was loaded (config.fileData) equals the bytes on disk *)
+  | CParse (f : content) (t : otab) (wr acc : bool) (cls : Z) (chg : bool) (out : obj) (ldeq : bool).
 
 Definition res_ok (r : res obj) (cls : Z) (out : obj) : bool :=
   match r with
@@ -179,6 +186,17 @@ Definition case_ok (c : case) : bool :=
       | _, _ => false
       end
   | CLoadDoc ver m accepted => accepted && loadable (Z.to_nat ver) m
+  | CParse f t wr acc cls chg out ldeq =>
+      let '(r, w) := parse_config (mk_oracles t) (fun _ => acc) f wr in
+      match r with
+      | PLoaded _ _ => Z.eqb cls 1 && ldeq
+      | PPanic => Z.eqb cls 2
+      | _ => Z.eqb cls 0
+      end
+      && match w with
+         | None => negb chg
+         | Some b => chg && val_eqb (VObj b) (VObj out)
+         end
   end.
 
 Definition mismatches := Base.Run.mismatches case_ok.
@@ -220,4 +238,13 @@ Definition explain (c : case) : Z * val :=
       | Some (Some a) => (2%Z, norm a)
       end
   | CLoadDoc ver m _ => ((if loadable (Z.to_nat ver) m then 1 else 0)%Z, VNull)
+  | CParse f t wr acc _ _ _ _ =>
+      (* 0 read / 1 upgrade / 2 write / 3 load error, 10 loaded as it is, 11 upgraded
+         and loaded, 20 panic; the body written to the file, if any *)
+      let '(r, w) := parse_config (mk_oracles t) (fun _ => acc) f wr in
+      ((match r with
+        | PReadErr => 0 | PMigrateErr => 1 | PWriteErr => 2 | PLoadErr => 3
+        | PLoaded _ false => 10 | PLoaded _ true => 11 | PPanic => 20
+        end)%Z,
+       match w with None => VNull | Some b => VObj b end)
   end.
